@@ -272,6 +272,25 @@ class Renderer:
         self.lines = []
         self.cur = ""
         self.base = start_line
+        # multi-line mode (statements flagged "ml"): expressions are broken over several lines - after a binary
+        # operator, after '(' '[' '{' and after each ',' - and every node that can fail is marked in the text right
+        # before the token its operation is compiled from; render() turns the marks into "ln" fields
+        self.ml = False
+        self.marks = []
+
+    def mk(self, node):
+        if not self.ml:
+            return ""
+        self.marks.append(node)
+        return "\x01%d\x02" % (len(self.marks) - 1)
+
+    @property
+    def br(self):
+        return "\n    " if self.ml else " "
+
+    @property
+    def br0(self):
+        return "\n    " if self.ml else ""
 
     @property
     def ln(self):
@@ -295,33 +314,36 @@ class Renderer:
         if t == "raw":          # raw source text (for deliberately odd inputs)
             return x["s"]
         if t == "un":
-            s = x["op"] + self.e(x["e"], P_UNARY)
-            if x["op"] == "-" and s.startswith("--"):
-                s = "- " + s[1:]
+            inner = self.e(x["e"], P_UNARY)
+            if x["op"] == "-" and inner.lstrip("\x01\x020123456789").startswith("-"):
+                inner = " " + inner
+            s = self.mk(x) + x["op"] + inner
             return "(%s)" % s if (self.full or prec > P_UNARY) else s
         if t == "bin":
             p = PREC[x["op"]]
             l = self.e(x["l"], p)
             r = self.e(x["r"], p + 1)     # left associative: right operand needs a higher level
-            s = "%s %s %s" % (l, x["op"], r)
+            s = "%s %s%s%s%s" % (l, self.mk(x), x["op"], self.br, r)
             return "(%s)" % s if (self.full or prec > p) else s
         if t == "asg":
-            s = "%s = %s" % (self.e(x["tg"], P_CALL), self.e(x["e"], P_ASSIGN))
+            s = "%s =%s%s" % (self.e(x["tg"], P_CALL), self.br, self.e(x["e"], P_ASSIGN))
             return "(%s)" % s if (self.full or prec > P_ASSIGN) else s
         if t == "idx":
-            s = "%s[%s]" % (self.e(x["a"], P_CALL), self.e(x["i"], 0))
+            s = "%s%s[%s%s]" % (self.e(x["a"], P_CALL), self.mk(x), self.br0, self.e(x["i"], 0))
             return "(%s)" % s if self.full else s
         if t == "call":
-            s = "%s(%s)" % (self.e(x["f"], P_CALL), ", ".join(self.e(a, P_ASSIGN) for a in x["as"]))
+            s = "%s%s(%s%s)" % (self.e(x["f"], P_CALL), self.mk(x), self.br0 if x["as"] else "",
+                                ("," + self.br).join(self.e(a, P_ASSIGN) for a in x["as"]))
             return "(%s)" % s if self.full else s
         if t == "dollar":                 # $n: the n-th layer of the current packet (null when there is none)
             return "$%d" % x["n"]
         if t == "dot":
-            return "%s.%s" % (self.e(x["e"], P_CALL), x["p"])
+            return "%s%s.%s" % (self.e(x["e"], P_CALL), self.mk(x), x["p"])
         if t == "arr":
-            return "[%s]" % ", ".join(self.e(a, P_ASSIGN) for a in x["es"])
+            return "[%s%s]" % (self.br0 if x["es"] else "", ("," + self.br).join(self.e(a, P_ASSIGN) for a in x["es"]))
         if t == "map":
-            return "map {%s}" % ", ".join("%s: %s" % (self.e(k, P_ASSIGN), self.e(v, P_ASSIGN)) for k, v in x["kvs"])
+            return "map {%s%s}" % (self.br0 if x["kvs"] else "",
+                                   ("," + self.br).join("%s: %s" % (self.e(k, P_ASSIGN), self.e(v, P_ASSIGN)) for k, v in x["kvs"]))
         if t == "fn":
             s = "fn(%s) %s" % (", ".join(x["ps"]), self.inline_block(x["body"]))
             return "(%s)" % s if prec > 0 else s
@@ -331,9 +353,9 @@ class Renderer:
         if t == "match":
             arms = []
             for a in x["arms"]:
-                pats = " | ".join(self.pat(p) for p in a["pats"])
+                pats = " | ".join(self.mk(p) + self.pat(p) for p in a["pats"])
                 arms.append("%s => %s" % (pats, self.inline_block(a["body"])))
-            s = "match %s { %s }" % (self.e(x["e"], P_ASSIGN), ", ".join(arms))
+            s = "match %s {%s%s%s}" % (self.e(x["e"], P_ASSIGN), self.br, ("," + self.br).join(arms), self.br)
             return "(%s)" % s if prec > 0 else s
         raise ValueError("unknown expression node %r" % t)
 
@@ -357,12 +379,19 @@ class Renderer:
         parts = []
         for s in stmts:
             parts.append(self.stmt_inline(s))
+        if self.ml and parts:
+            return "{%s%s%s}" % (self.br, self.br.join(parts), self.br)
         return "{ %s }" % " ".join(parts) if parts else "{ }"
 
     def stmt_inline(self, s):
         """statement rendered on the current line (inside an expression-level block)"""
         s["ln"] = self.ln
         t = s["t"]
+        if self.ml:                     # its line is known only when the whole text is there
+            return self.mk(s) + self._stmt_inline(s, t)
+        return self._stmt_inline(s, t)
+
+    def _stmt_inline(self, s, t):
         if t == "expr":
             return self.e(s["e"], 0) + ";"
         if t == "let":
@@ -405,6 +434,13 @@ class Renderer:
             self.newline()
         self.emit(pad)
         s["ln"] = self.ln
+        was = self.ml
+        self.ml = was or bool(s.get("ml"))
+        self._stmt_body(s, t, indent)
+        self.ml = was
+        self.newline()
+
+    def _stmt_body(self, s, t, indent):
         if t == "block":
             self.block_lines(s["b"], indent)
         elif t == "while":
@@ -434,12 +470,28 @@ class Renderer:
             self.emit(";")      # an if expression followed by '(' or '[' on the next line would be a call / index
         else:
             self.emit(self.stmt_inline(s))
-        self.newline()
 
     def program(self, prog):
         for s in prog:
             self.stmt(s, 0)
-        return "\n".join(self.lines) + "\n"
+        src = "\n".join(self.lines) + "\n"
+        if not self.marks:
+            return src
+        out = []
+        line = self.base
+        i = 0
+        while i < len(src):
+            c = src[i]
+            if c == "\x01":
+                j = src.index("\x02", i)
+                self.marks[int(src[i + 1:j])]["ln"] = line
+                i = j + 1
+                continue
+            if c == "\n":
+                line += 1
+            out.append(c)
+            i += 1
+        return "".join(out)
 
 
 def render(prog, full=False, start_line=1):
